@@ -552,6 +552,9 @@ func workerMain(props map[string]*Prop, a []string) {
 	c.flush()
 }
 
+// totalDeaths counts crashed and hung cases over all workers of this run.
+var totalDeaths atomic.Int64
+
 type workerRun struct {
 	res     *result
 	crashes []*VRec
@@ -638,8 +641,8 @@ func runWorker(self string, p *Prop, tier string, w, n int, deadline time.Time, 
 		}
 		// A tree on which very many cases crash or hang must not keep this check running for hours: a
 		// restart replays the worker's share from its beginning. Once the tier's budget is spent, or after
-		// eight deaths, the worker's share is reported as not completed (the deaths are violations anyway).
-		if time.Now().After(deadline) || len(wr.crashes) >= 8 {
+		// eight deaths of this worker or 24 of all workers together, the worker's share is reported as not completed (the deaths are violations anyway).
+		if time.Now().After(deadline) || len(wr.crashes) >= 8 || totalDeaths.Add(1) >= 24 {
 			wr.res = &result{Expired: true, Outcomes: map[string]int64{}, Dims: map[string]int64{}, Counters: map[string]int64{},
 				Notes: []string{fmt.Sprintf("worker %d gave up after %d crashed or hung cases", w, len(wr.crashes))}}
 			os.Remove(cellPath)
